@@ -5,6 +5,7 @@ import threading
 from hypothesis import strategies as st
 
 from .. import gen, pipeline as pl
+from ..pipeline import dt
 from ..core import R, exc_sig
 from ..sched import Sched
 from . import c01
@@ -47,7 +48,10 @@ def pipeline_specs(draw, i):
             "sreg": draw(st.sampled_from([list(pl.DEFAULT_SREG), list(pl.DEFAULT_SREG), list(pl.FULL_SREG)])),
             # ordinary library use: no registry passed, all pipelines share the process-wide default registry
             "default_registry": draw(st.sampled_from([False, True])),
-            "merge": draw(st.sampled_from([None, None, [["exact"]], [["percent", 50]], [["number", 2]]]))}
+            "merge": draw(st.sampled_from([None, None, [["exact"]], [["percent", 50]], [["number", 2]]])),
+            # documented generator option: keyword arguments of the @attr.s / @dataclass decorator (differ between pipelines)
+            "deco_kwargs": draw(st.sampled_from([None, None, {"slots": True}, {"frozen": True}, {"eq": False},
+                                                 {"frozen": True, "slots": True}, {"order": True}]))}
     # a field whose strings are of different pseudo-types (resolution of pseudo-types runs for it)
     mix = draw(st.sampled_from([["1", "2.5"], ["true", "7"], ["1", "2"], ["2018-01-02", "12:30"], ["x", "1.5", "3"], ["false", "true"]]))
     samples = list(samples) + [{"mix": mix}, {"mix": list(reversed(mix))}]
@@ -63,9 +67,19 @@ def cases(draw, tier="quick", mode=None):
         # all pipelines of the case use the process-wide default registry (the ordinary way to call the library)
         for p in pipes:
             p["opts"]["default_registry"] = True
+    cli_datetime = False
+    if mode in ("controlled", "stress") and draw(st.integers(0, 5)) == 0:
+        # every pipeline is a command-line run with --datetime: all of them register the date/time classes in the process-wide
+        # registry (so they agree about what the shared state should be) and infer date/time fields of different sizes
+        cli_datetime = True
+        for i, p in enumerate(pipes):
+            p["kind"] = "cli"
+            extra = [{"when_p%d" % i: "2018-01-02", "at_p%d" % i: "12:30", "ts_p%d" % i: "2018-01-02T12:30:00"}]
+            p["samples"] = list(p["samples"]) + extra * draw(st.sampled_from([1, 1, 4, 12]))
     schedule = draw(st.lists(st.integers(0, 7), max_size=300)) if mode == "controlled" else []
     # threads may legitimately share a name (e.g. a pool that names all its workers alike)
-    return {"mode": mode, "pipelines": pipes, "schedule": schedule, "same_thread_names": draw(st.sampled_from([False, False, True]))}
+    return {"mode": mode, "pipelines": pipes, "schedule": schedule, "same_thread_names": draw(st.sampled_from([False, False, True])),
+            "cli_datetime": cli_datetime}
 
 
 def valid(case):
@@ -74,12 +88,15 @@ def valid(case):
             return False
         if not all(isinstance(x, int) and 0 <= x < 64 for x in case["schedule"]):
             return False
-        if not isinstance(case.get("same_thread_names", False), bool):
+        if not isinstance(case.get("same_thread_names", False), bool) or not isinstance(case.get("cli_datetime", False), bool):
             return False
         keysets = []
         from ..findings import all_keys
         for p in case["pipelines"]:
             po = dict(p["opts"])
+            dk = po.pop("deco_kwargs", None)
+            if dk is not None and not (isinstance(dk, dict) and all(k in ("slots", "frozen", "eq", "order") and isinstance(v, bool) for k, v in dk.items())):
+                return False
             if not isinstance(po.pop("default_registry", False), bool) or p.get("kind", "library") not in ("library", "cli"):
                 return False
             if not c01.valid({"samples": p["samples"], "opts": po}):
@@ -94,21 +111,21 @@ def valid(case):
         return False
 
 
-def cli_argv(spec, path):
+def cli_argv(spec, path, datetime_=False):
     from .. import cliargs
     o = pl.norm_opts(spec["opts"])
-    o["sreg"] = list(pl.DEFAULT_SREG)
+    o["sreg"] = list(pl.FULL_SREG if datetime_ else pl.DEFAULT_SREG)
     return ["-m", "Root", path] + cliargs.option_args(o)
 
 
-def job(spec, path=None):
+def job(spec, path=None, datetime_=False):
     if spec.get("kind") == "cli" and path:
         # a whole command-line pipeline: its own Cli object, parse_args + run (the header echoes process-wide argv: ignored)
         def run_cli():
             from json_to_models.cli import Cli
             from .c16 import split_header
             cli = Cli()
-            cli.parse_args(cli_argv(spec, path))
+            cli.parse_args(cli_argv(spec, path, datetime_))
             return split_header(cli.run())[1]
         return run_cli
 
@@ -118,10 +135,10 @@ def job(spec, path=None):
     return run
 
 
-def solo(spec, path=None):
+def solo(spec, path=None, datetime_=False):
     if spec.get("kind") == "cli" and path:
         try:
-            return ("ok", job(spec, path)()), False, 1
+            return ("ok", job(spec, path, datetime_)()), False, 1
         except BaseException as e:  # noqa: BLE001
             return ("exc", type(e).__name__, str(e)[:200]), False, 0
     try:
@@ -139,6 +156,20 @@ def solo(spec, path=None):
 
 
 def check(case):
+    if not case.get("cli_datetime"):
+        return _check(case)
+    # --datetime commands change the process-wide registry for good (documented); the worker process serves other cases
+    # afterwards, so the harness puts the registry back
+    types, replaces = list(dt.registry.types), set(dt.registry.replaces)
+    try:
+        return _check(case)
+    finally:
+        dt.registry.types[:] = types
+        dt.registry.replaces.clear()
+        dt.registry.replaces.update(replaces)
+
+
+def _check(case):
     r = R()
     specs = case["pipelines"]
     mode = case["mode"]
@@ -157,11 +188,14 @@ def check(case):
         paths.append(pth)
     if any(s["opts"].get("default_registry") for s in specs):
         r.label("pipeline:default-registry")
-    solos = [solo(s, p) for s, p in zip(specs, paths)]
+    cdt = bool(case.get("cli_datetime"))
+    if cdt:
+        r.label("pipeline:cli-with-datetime")
+    solos = [solo(s, p, cdt) for s, p in zip(specs, paths)]
     any_ctx = any(c for _, c, _ in solos)
     if any_ctx:
         r.label("pipeline-with-nonempty-reference-context")
-    jobs = [job(s, p) for s, p in zip(specs, paths)]
+    jobs = [job(s, p, cdt) for s, p in zip(specs, paths)]
     if mode == "single_class":
         # the per-class rendering API, from a fresh thread that has never been inside generate_code
         def one():
